@@ -30,10 +30,11 @@ THEOREMS = [f'Gnpy.Fiber.{t}' for t in (
     'exp_alpha_is_db', 'lumped_once', 'createLumped_sorted', 'propagateP_eq', 'loss_budget', 'span_loss_budget',
     'lumped_same_position_failed_before_fix', 'cd_additive', 'latency_additive', 'quadrature_fold', 'quadrature_perm',
     'pmd_quadrature', 'pdl_quadrature', 'path_order_irrelevant', 'fibre_pmd_sq', 'fibre_pdl_unchanged', 'latency_formula',
-    'cd_at_ref')] + [f'Gnpy.Raman.{t}' for t in (
+    'cd_at_ref', 'split_span_invariant')] + [f'Gnpy.Raman.{t}' for t in (
     'euler_zero_cr', 'eulerFactor_bounds', 'perturbative_zero_cr', 'perturbGo_zero_cr', 'perturbative_zero_cr_grid',
     'perturbative_low_power', 'gamma1_bound', 'createLumped_prod', 'euler_budget',
-    'counterprop_gain_only_partial', 'gamma1_nonneg')]
+    'counterprop_gain_only_partial', 'gamma1_nonneg', 'trapz_nonneg', 'sprs_term_nonneg', 'sprs_ase_nonneg',
+    'sprs_pump_order_irrelevant', 'sprs_misindexed_can_be_negative_old')]
 RULE = ('cases from one PRNG: (a) one span: random fibre (0.1-300 km in km or m, scalar or per-frequency loss, 0-3 lumped '
         'losses, ~6 % with two lumped losses at one position, connectors, padding, dispersion +/-/slope/table) x comb of 1-24 '
         'channels (quick) with random previously accumulated CD/PMD/PDL/latency; (b) paths of 2-8 real elements (Fiber, Roadm '
@@ -73,7 +74,7 @@ MANIFEST = {
              'correspondence; proved: at zero Raman efficiency Euler is the grid product within 2 a^2 sum dz^2 Neper of the '
              'budget and the perturbative method is exactly the budget with each lumped loss once; first-order term linear '
              'in the power scale and non-negative for non-negative efficiencies. "Methods agree", the gain-only statement at '
-             'full order and the iterative co/counter algorithm are covered by the monitor only (see level_note).'),
+             'full order and the iterative co/counter algorithm are covered by the monitor only; the spontaneous Raman ASE is modelled (inputs: SRS profiles, cr) with non-negativity and pump-order theorems (see level_note).'),
 }
 
 SIM_OFF = {'raman_params': {'flag': False}, 'nli_params': {'method': 'gn_model_analytic'}}
@@ -89,9 +90,13 @@ def gen(rng, tier, widen=False):
     k = rng.random()
     if k < 0.42:
         return gen_span(rng, tier, widen)
-    if k < 0.80:
+    if k < 0.74:
         return gen_path(rng, tier, widen)
-    if k < 0.90:
+    if k < 0.80:
+        return gen_designed(rng, tier)
+    if k < 0.85:
+        return gen_sprs(rng, tier)
+    if k < 0.92:
         return gen_malformed(rng, tier)
     return gen_raman(rng, tier, widen)
 
@@ -158,6 +163,40 @@ def gen_path(rng, tier, widen):
     return {'kind': 'path', 'comb': comb, 'elements': els, 'order2': order2, 'init': _init(rng, n, zero=rng.random() < 0.3)}
 
 
+LIB_FIBRES = {'SSMF': (1.67e-05, 8.3e-11), 'NZDF': (5e-06, 7.2e-11), 'LOF': (2.2e-05, 1.25e-10)}   # dispersion, A_eff
+
+
+def gen_designed(rng, tier):
+    """ROADM - fibres - ROADM given as ONE element per fibre, some longer than the Span max_length (150 km): auto-design
+    cuts them (split_fiber rebuilds the sub-spans from FiberParams.asdict()) and inserts amplifiers; the figures accumulated
+    at the receiver must be those of the ORIGINAL fibres"""
+    k = rng.choice([1, 1, 2, 3, 4])
+    line = []
+    for i in range(k):
+        if i == 0 or rng.random() < 0.6:
+            L = rng.choice([151.0, 150.0, 300.0, 299.9, 420.0, 600.0, round(rng.uniform(151, 600), 3),
+                            round(rng.uniform(151, 330), 1)])
+        else:
+            L = rng.choice([80.0, 20.0, 120.0, 149.9, round(rng.uniform(20, 149), 3)])
+        e = {'length': L, 'variety': rng.choice(list(LIB_FIBRES)), 'loss_coef': rng.choice([0.2, 0.2, 0.22, 0.19, 0.25])}
+        if rng.random() < 0.6:
+            e['pmd_coef'] = rng.choice([0.4e-15, 2.0e-15, 3.1e-15, round(rng.uniform(0.1, 3), 3) * 1e-15])
+        # what belongs to one place of the fibre (fixes 90cb5026 / 02632740: kept once when the design cuts the fibre)
+        if rng.random() < 0.3:
+            nk = rng.randint(2, 5)
+            freqs = [190.5e12 + (197.0e12 - 190.5e12) * j / (nk - 1) for j in range(nk)]
+            e['loss_coef'] = FB._table(rng, freqs, [round(rng.uniform(0.18, 0.26), 4) for _ in range(nk)])
+        if rng.random() < 0.35:
+            e['att_in'] = rng.choice([1.0, 2.0, 0.5, round(rng.uniform(0.1, 4), 2)])
+        if rng.random() < 0.4:
+            # positions with a 4th decimal 7: never on a boundary k L / n of the cut
+            e['lumped_losses'] = [{'position': round(rng.uniform(0.02, 0.98) * L, 3) + 0.0007,
+                                   'loss': rng.choice([0.5, 1.0, 2.0, round(rng.uniform(0.1, 2), 2)])}
+                                  for _ in range(rng.randint(1, 3))]
+        line.append(e)
+    return {'kind': 'designed', 'line': line}
+
+
 def gen_malformed(rng, tier):
     comb = FB.gen_comb(rng, 8)
     fib = FB.gen_fibre(rng, min(comb['f']) - 1e9, max(comb['f']) + 1e9, lumped=False)
@@ -175,6 +214,35 @@ def gen_malformed(rng, tier):
             a, b = lo + 1e9, lo + 2e12
         fib['loss_coef'] = FB._table(rng, [a, (a + b) / 2, b], [0.2, 0.22, 0.21])
     return {'kind': 'malformed', 'bad': bad, 'fibre': fib, 'comb': comb, 'init': _init(rng, n, zero=True)}
+
+
+def gen_sprs(rng, tier):
+    """spontaneous Raman scattering: RamanFiber with 1-4 pumps, co- and counter-propagating in ANY list order, above and
+    below the signal band (the SRS result lists co-propagating pumps first whatever the list order)"""
+    n = rng.randint(2, 8)
+    lo = rng.choice([186.5e12, 188.0e12, 191.3e12])
+    hi = rng.choice([196.0e12, 197.0e12, 193.5e12])
+    slots = sorted(rng.sample(range(int((hi - lo) / 100e9)), n))
+    comb = {'style': 'raman', 'f': [lo + 50e9 + k * 100e9 for k in slots], 'b': [rng.choice([32e9, 64e9]) for _ in range(n)],
+            'slot': [100e9] * n, 'p_dbm': [round(rng.uniform(-3, 5), 2) for _ in range(n)]}
+    fib = FB.gen_fibre(rng, 185e12, 208e12, lumped=False)
+    fib['length'] = round(rng.uniform(3, 50), 3)
+    fib['length_units'] = 'km'
+    if rng.random() < 0.4:
+        fib['lumped_losses'] = [{'position': round(rng.uniform(0.05, 0.95) * fib['length'], 3), 'loss': rng.choice([0.5, 1.0])}]
+    freqs = rng.sample([199e12, 201e12, 203e12, 205e12, 206e12, 185.5e12, 185.8e12], rng.randint(1, 4))
+    pumps = []
+    for f in freqs:
+        d = rng.choice(['coprop', 'counterprop'])
+        pumps.append({'power': round(rng.uniform(0.02, 0.12) if d == 'coprop' else rng.uniform(0.05, 0.3), 4),
+                      'frequency': f, 'propagation_direction': d})
+    if len(pumps) >= 2 and rng.random() < 0.5:
+        # the order F23 was about: a counter-propagating pump listed before a co-propagating one
+        pumps[0]['propagation_direction'], pumps[1]['propagation_direction'] = 'counterprop', 'coprop'
+        pumps[1]['power'] = min(pumps[1]['power'], 0.12)
+    return {'kind': 'sprs', 'fibre': fib, 'comb': comb, 'pumps': pumps, 'method': rng.choice(['perturbative', 'numerical']),
+            'order': rng.choice([1, 2, 3]), 'solver_res': rng.choice([200, 500]), 'result_res': rng.choice([1e3, 5e3]),
+            'temperature': rng.choice([283, 298, 273.15]), 'init': _init(rng, n, zero=True)}
 
 
 def gen_raman(rng, tier, widen):
@@ -277,8 +345,10 @@ def _dup_positions(p):
 def run(case, drv):
     if case['kind'] == 'raman':
         return run_raman(case, drv)
+    if case['kind'] == 'sprs':
+        return run_sprs(case, drv)
     with FB.sim_params(SIM_OFF):
-        return {'span': run_span, 'path': run_path, 'malformed': run_span}[case['kind']](case, drv)
+        return {'span': run_span, 'path': run_path, 'malformed': run_span, 'designed': run_designed}[case['kind']](case, drv)
 
 
 def run_span(case, drv):
@@ -538,6 +608,193 @@ def run_path(case, drv):
     return res
 
 
+# ---- designed networks: long fibres cut by auto-design ------------------------------------------------------------------
+
+def _line_topology(fibres):
+    """fibres: list of (uid, length_km, variety, loss_coef, pmd_coef or None)"""
+    els = [nets.trx('trx A'), nets.trx('trx B'), nets.roadm('roadm A'), nets.roadm('roadm B')]
+    cxs = [nets.cx('trx A', 'roadm A'), nets.cx('roadm A', 'trx A'), nets.cx('trx B', 'roadm B'), nets.cx('roadm B', 'trx B')]
+    line = []
+    for uid, L, variety, loss, pmd, *more in fibres:
+        extra = {'loss_coef': copy.deepcopy(loss)}
+        if pmd is not None:
+            extra['pmd_coef'] = pmd
+        if more:
+            extra.update(copy.deepcopy(more[0]))
+        line.append(nets.fiber(uid, L, variety, **extra))
+    nets.chain(els, cxs, 'roadm A', 'roadm B', line)
+    nets.chain(els, cxs, 'roadm B', 'roadm A', [nets.fiber('back', 80.0)])
+    return {'elements': els, 'connections': cxs}
+
+
+def _design_and_propagate(topology):
+    from gnpy.tools.json_io import network_from_json
+    from gnpy.tools.worker_utils import designed_network
+    from gnpy.topology.request import compute_constrained_path, propagate
+    eq = nets.eqpt()
+    net = network_from_json(topology, eq)
+    net, req, _ = designed_network(eq, net, source='trx A', destination='trx B')
+    path = compute_constrained_path(net, req)
+    si = propagate(path, req, eq)
+    return path, si, req, eq
+
+
+def _propagate_recording(path, req, eq):
+    """the loop of request.propagate, recording the power per channel before and behind every Fiber"""
+    from gnpy.core.elements import Roadm, Fiber
+    from gnpy.core.info import create_input_spectral_information
+    from gnpy.topology.request import filter_si
+    si = create_input_spectral_information(f_min=req.f_min, f_max=req.f_max, roll_off=req.roll_off,
+                                           baud_rate=req.baud_rate, spacing=req.spacing, tx_osnr=req.tx_osnr,
+                                           tx_power=req.tx_power, delta_pdb=req.offset_db)
+    si = filter_si(path, eq, si)
+    rec = []
+    for i, el in enumerate(path):
+        before = np.array(si.pch)
+        if isinstance(el, Roadm):
+            si = el(si, degree=path[i + 1].uid, from_degree=path[i - 1].uid)
+        else:
+            si = el(si)
+        if isinstance(el, Fiber):
+            rec.append((el, 10 * np.log10(before / np.array(si.pch))))
+    return si, rec
+
+
+def run_designed(case, drv):
+    from gnpy.core.elements import Fiber, Edfa, Roadm
+    res = Result()
+    line = case['line']
+    orig = [(f'f{i}', e['length'], e['variety'], e['loss_coef'], e.get('pmd_coef'),
+             {k: e[k] for k in ('att_in', 'lumped_losses') if k in e}) for i, e in enumerate(line)]
+    try:
+        path, si, req, eq = _design_and_propagate(_line_topology(orig))
+    except Exception as e:  # noqa
+        res.fail(f'rejected: the design / propagation of a well-formed link (fibres {[x["length"] for x in line]} km, '
+                 f'padding / lumped losses / loss tables allowed on long fibres) raised {err_kind(e)}: {str(e)[:160]}')
+        res.stats.update({'kind_designed': 1, 'designed_rejected': 1})
+        return res
+    freq = [float(x) for x in si.frequency]
+    nch = len(freq)
+    got = _acc(si)
+    # the fibre description as FiberParams sees it (library values of the variety + the element's own)
+    def params(e, length_m):
+        d, a = LIB_FIBRES[e['variety']]
+        return {'length': length_m, 'length_units': 'm', 'loss_coef': e['loss_coef'], 'dispersion': d, 'effective_area': a,
+                'pmd_coef': e.get('pmd_coef', 1.265e-15), 'con_in': 0, 'con_out': 0}
+    # ---- structure: the sub-spans of every original fibre add up to its length
+    subs = {f'f{i}': [] for i in range(len(line))}
+    for el in path:
+        if isinstance(el, Fiber):
+            subs[el.uid.split('_(')[0]].append(el)
+    nsplit = 0
+    for i, e in enumerate(line):
+        lengths = [el.params.length for el in subs[f'f{i}']]
+        if abs(sum(lengths) - e['length'] * 1e3) > 1e-9 * e['length'] * 1e3:
+            res.fail(f'split: fibre f{i} of {e["length"]} km became spans of {lengths} m')
+        if len(lengths) > 1:
+            nsplit += 1
+        for el in subs[f'f{i}']:
+            if abs(el.params.pmd_coef - e.get('pmd_coef', 1.265e-15)) > 1e-24:
+                res.fail(f'split: span {el.uid} has pmd_coef {el.params.pmd_coef}, the fibre {e.get("pmd_coef", 1.265e-15)}')
+    # ---- correspondence: the path as crossed vs accPath of the model
+    mels = []
+    amp_pmd2 = amp_pdl2 = 0.0
+    for idx, el in enumerate(path):
+        if isinstance(el, Fiber):
+            i = int(el.uid.split('_(')[0][1:])
+            n = len(subs[f'f{i}'])
+            mels.append(dict(kind='fiber', **_span_json(params(line[i], line[i]['length'] * 1e3 / n))))
+        elif isinstance(el, Edfa):
+            mels.append({'kind': 'lumped', 'pmd': fl([el.params.pmd] * nch), 'pdl': fl([el.params.pdl] * nch)})
+            amp_pmd2 += el.params.pmd ** 2
+            amp_pdl2 += el.params.pdl ** 2
+        elif isinstance(el, Roadm):
+            pm = el.get_impairment('roadm-pmd', si.frequency, path[idx - 1].uid, path[idx + 1].uid)
+            pd = el.get_impairment('roadm-pdl', si.frequency, path[idx - 1].uid, path[idx + 1].uid)
+            mels.append({'kind': 'lumped', 'pmd': fl(np.broadcast_to(pm, (nch,))), 'pdl': fl(np.broadcast_to(pd, (nch,)))})
+            amp_pmd2 += float(np.max(pm)) ** 2
+            amp_pdl2 += float(np.max(pd)) ** 2
+    zero = _init(None, nch, zero=True)
+    m = drv.ask('c05.path', elements=mels, f=fl(freq), init=_init_json(zero))
+    _cmp_acc(res, 'designed path (receiver)', got, m)
+    # ---- monitor: the ORIGINAL fibres, own arithmetic
+    lat = sum(e['length'] * 1e3 * FB.N1 / FB.C for e in line)
+    pmd = math.sqrt(sum(e.get('pmd_coef', 1.265e-15) ** 2 * e['length'] * 1e3 for e in line) + amp_pmd2)
+    pdl = math.sqrt(amp_pdl2)
+    for c in (0, nch // 2, nch - 1):
+        cd = sum(FB.cd_ref(params(e, e['length'] * 1e3), freq[c], e['length'] * 1e3) for e in line)
+        if abs(got['latency'][c] - lat) > 1e-9 * lat:
+            res.fail(f'latency additive: receiver sees {got["latency"][c]!r} s, sum over the fibres of length x n1 / c = {lat!r} s '
+                     f'(fibres {[e["length"] for e in line]} km, cut into {[len(subs[k]) for k in subs]} spans)')
+            break
+        if abs(got['cd'][c] - cd) > 1e-9 * abs(cd):
+            res.fail(f'CD additive: receiver sees {got["cd"][c]!r} s/m, sum over the fibres {cd!r} s/m (channel {c})')
+            break
+        if abs(got['pmd'][c] - pmd) > 1e-9 * pmd:
+            res.fail(f'PMD quadrature: receiver sees {got["pmd"][c]!r} s, root of the sum of squares over the fibres, ROADMs '
+                     f'and amplifiers {pmd!r} s')
+            break
+        if abs(got['pdl'][c] - pdl) > 1e-9 * max(pdl, 1e-15):
+            res.fail(f'PDL quadrature: receiver sees {got["pdl"][c]!r} dB, expected {pdl!r} dB')
+            break
+    # ---- monitor: link-level loss budget. The spans a fibre was cut into attenuate every channel, together, by the padding
+    # and the lumped losses of the ORIGINAL fibre (each once), its length x loss coefficient at the channel's frequency,
+    # and the connector losses the design gave to every span
+    si_r, rec = _propagate_recording(path, req, eq)
+    if not (np.array_equal(si_r.pch, si.pch) and np.array_equal(si_r.latency, si.latency)):
+        res.mismatch('request.propagate vs recorded walk', [float(x) for x in si.pch[:3]], [float(x) for x in si_r.pch[:3]])
+    for i, e in enumerate(line):
+        mine = [(el, att) for el, att in rec if el.uid.split('_(')[0] == f'f{i}']
+        total = sum(att for _, att in mine)
+        conn = sum(el.params.con_in + el.params.con_out for el, _ in mine)
+        # padding: the user's att_in, once; the design may only pad an UNCUT short span up to the minimum span loss
+        pad = sum(el.params.att_in for el, _ in mine)
+        if len(mine) > 1 and abs(pad - e.get('att_in', 0)) > 1e-12:
+            res.fail(f'link loss budget: the {len(mine)} spans of fibre f{i} carry {pad} dB of padding in total, the fibre was '
+                     f'given {e.get("att_in", 0)} dB')
+        if pad < e.get('att_in', 0) - 1e-12:
+            res.fail(f'link loss budget: fibre f{i} was given {e["att_in"]} dB of padding, the designed span has {pad} dB')
+        p_e = params(e, e['length'] * 1e3)
+        for c in (0, nch // 2, nch - 1):
+            want = (pad + conn + e['length'] * FB.loss_db_per_km(p_e, freq[c])
+                    + sum(x['loss'] for x in e.get('lumped_losses', [])))
+            if abs(float(total[c]) - want) > 1e-8:
+                res.fail(f'link loss budget: the {len(mine)} span(s) of fibre f{i} ({e["length"]} km) attenuate channel {c} by '
+                         f'{float(total[c]):.9f} dB; padding + connectors as designed + length x loss coefficient + lumped '
+                         f'losses of the original fibre = {want:.9f} dB')
+                break
+    # ---- the same link given as explicit pre-cut spans
+    pre = []
+    for i, e in enumerate(line):
+        n = len(subs[f'f{i}'])
+        pre += [(f'f{i}x{j}', e['length'] / n, e['variety'], e['loss_coef'], e.get('pmd_coef')) for j in range(n)]
+    path2, si2, _, _ = _design_and_propagate(_line_topology(pre))
+    got2 = _acc(si2)
+    n1 = sum(isinstance(el, Fiber) for el in path)
+    n2 = sum(isinstance(el, Fiber) for el in path2)
+    if n1 != n2:
+        res.fail(f'pre-cut: the designed link has {n1} spans, the same link given as explicit spans {n2}')
+    for key in ('cd', 'pmd', 'pdl', 'latency'):
+        for c in (0, nch - 1):
+            x, y = got[key][c], got2[key][c]
+            if abs(x - y) > 1e-9 * max(abs(x), abs(y), 1e-30):
+                res.fail(f'pre-cut: {key} at the receiver is {x!r} with the long fibres cut by the design, {y!r} with the '
+                         f'same spans given explicitly')
+                break
+    res.nontrivial = nsplit > 0
+    res.stats.update({'kind_designed': 1, f'designed_fibres_{len(line)}': 1, 'designed_fibres_split': nsplit,
+                      'designed_spans_total': n1, 'designed_mixed_long_short': int(0 < nsplit < len(line)),
+                      'designed_own_pmd_coef': int(any('pmd_coef' in e for e in line)),
+                      'designed_long_with_loss_table': sum(1 for i, e in enumerate(line) if isinstance(e['loss_coef'], dict)
+                                                           and len(subs[f'f{i}']) > 1),
+                      'designed_long_with_padding': sum(1 for i, e in enumerate(line) if e.get('att_in')
+                                                        and len(subs[f'f{i}']) > 1),
+                      'designed_long_with_lumped': sum(1 for i, e in enumerate(line) if e.get('lumped_losses')
+                                                       and len(subs[f'f{i}']) > 1),
+                      'designed_max_spans_per_fibre': max(len(v) for v in subs.values())})
+    return res
+
+
 # ---- Raman on ---------------------------------------------------------------------------------------------------------
 
 NEPER_DB = 10 / math.log(10)     # 4.3429...
@@ -730,6 +987,49 @@ def run_raman(case, drv):
     return res
 
 
+def run_sprs(case, drv):
+    """RamanSolver.calculate_spontaneous_raman_scattering on a real RamanFiber, pump list in the given and in the reversed
+    order, vs Gnpy.Raman.sprsChannel fed with the SRS result (every pump row with ITS frequency and efficiency column)"""
+    from gnpy.core.elements import RamanFiber
+    from gnpy.core.science_utils import RamanSolver
+    res = Result()
+    p, comb = case['fibre'], case['comb']
+    n = len(comb['f'])
+    pw = [10 ** (x / 10) * 1e-3 for x in comb['p_dbm']]
+    results = []
+    for tag, pumps in (('given order', case['pumps']), ('reversed order', case['pumps'][::-1])):
+        fiber = FB.mk_fiber(p, cls=RamanFiber, operational={'temperature': case['temperature'], 'raman_pumps': pumps})
+        si = _si(comb, case['init'], pw=pw)
+        with FB.sim_params(_raman_sim(case)):
+            srs = RamanSolver.calculate_stimulated_raman_scattering(si, fiber)
+            ase = [float(x) for x in RamanSolver.calculate_spontaneous_raman_scattering(si, srs, fiber)]
+        cr = np.asarray(fiber.cr(srs.frequency))[:n, n:]
+        ans = drv.ask('c05.sprs', temperature=f2b(case['temperature']), z=fl(srs.z), baud=fl(si.baud_rate),
+                      f=fl(si.frequency), loss=[fl(r) for r in srs.loss_profile[:n]], pump_f=fl(srs.frequency[n:]),
+                      pump_cr=[fl(cr[:, k]) for k in range(cr.shape[1])], pump_profile=[fl(r) for r in srs.power_profile[n:]])
+        res.cmp_floats(f'RamanSolver.calculate_spontaneous_raman_scattering[{tag}]', ase, [b2f(x) for x in ans['ase']],
+                       abs_=1e-30)
+        for i in range(n):
+            if not (ase[i] >= 0.0):
+                res.fail(f'ASE sign: {tag} of the pump list ({[(q["propagation_direction"], q["frequency"]) for q in pumps]}): '
+                         f'spontaneous Raman ASE on channel {i} is {ase[i]!r} W', channel=i)
+                break
+        results.append(ase)
+    a, b = results
+    if any(abs(x - y) > 1e-9 * max(abs(x), abs(y), 1e-30) for x, y in zip(a, b)):
+        res.fail(f'pump order: the spontaneous Raman ASE depends on the order of the pump list: {a[:3]} vs {b[:3]}')
+    dirs = [q['propagation_direction'] for q in case['pumps']]
+    first_co = dirs.index('coprop') if 'coprop' in dirs else None
+    counter_before_co = first_co is not None and 'counterprop' in dirs[:first_co]
+    res.nontrivial = any(x > 0 for x in a)
+    res.stats.update({'kind_sprs': 1, f'sprs_pumps_{len(dirs)}': 1, 'sprs_mixed_directions': int(len(set(dirs)) == 2),
+                      'sprs_counter_listed_before_co': int(counter_before_co),
+                      'sprs_pump_below_band': int(any(q['frequency'] < min(comb['f']) for q in case['pumps'])),
+                      'sprs_pump_above_band': int(any(q['frequency'] > max(comb['f']) for q in case['pumps'])),
+                      'sprs_ase_positive': int(any(x > 0 for x in a))})
+    return res
+
+
 def json_key(e):
     import json
     return json.dumps(e, sort_keys=True)
@@ -790,12 +1090,41 @@ def _simplify_fibre(p, malformed=False):
 
 
 def shrink_candidates(case):
-    yield from _drop_channels(case)
-    if case['kind'] in ('span', 'malformed', 'raman'):
+    if case['kind'] != 'designed':
+        yield from _drop_channels(case)
+    if case['kind'] == 'sprs' and len(case['pumps']) > 1:
+        for i in range(len(case['pumps'])):
+            c = copy.deepcopy(case)
+            del c['pumps'][i]
+            yield c
+    if case['kind'] in ('span', 'malformed', 'raman', 'sprs'):
         for q in _simplify_fibre(case['fibre'], case['kind'] == 'malformed'):
             c = copy.deepcopy(case)
             c['fibre'] = q
             yield c
+    if case['kind'] == 'designed':
+        k = len(case['line'])
+        for i in range(k):
+            if k > 1:
+                c = copy.deepcopy(case)
+                del c['line'][i]
+                yield c
+        for i, e in enumerate(case['line']):
+            for key in ('pmd_coef', 'att_in', 'lumped_losses'):
+                if key in e:
+                    c = copy.deepcopy(case)
+                    del c['line'][i][key]
+                    yield c
+            if isinstance(e['loss_coef'], dict):
+                c = copy.deepcopy(case)
+                c['line'][i]['loss_coef'] = 0.2
+                yield c
+            for L in (151.0, 300.0, 80.0):
+                if e['length'] > L:
+                    c = copy.deepcopy(case)
+                    c['line'][i]['length'] = L
+                    yield c
+        return
     if case['kind'] == 'path':
         k = len(case['elements'])
         if k > 2:
